@@ -128,7 +128,7 @@ func runSelfTest(c *core.Ctx, verif, prop string) {
 		kind string
 	}
 	results := make([]result, len(ms))
-	sem := make(chan struct{}, 3)
+	sem := make(chan struct{}, 2)
 	var wg sync.WaitGroup
 	for i, m := range ms {
 		wg.Add(1)
